@@ -9,14 +9,16 @@ from .. import core
 from ..gen import dsgen
 
 PROP = 'C07'
-ST = [0, 1, 2, 0, 2]
+STS = {'all-used': (3, [0, 1, 2, 0, 2]), 'middle-unused': (4, [0, 1, 3, 0, 3]),
+       'top-unused': (4, [0, 1, 2, 0, 2])}
 
 
 def run_case(case, acc, order):
     from phylib.io.model import load_model
     sc = case['clusters']
     idt = case['id_dtype']
-    spec = {'n_spikes': len(sc), 'n_templates': 3, 'n_channels': 3, 'spike_templates': ST[:len(sc)],
+    nt, ST = STS[case.get('templates', 'all-used')]
+    spec = {'n_spikes': len(sc), 'n_templates': nt, 'n_channels': 3, 'spike_templates': ST[:len(sc)],
             'spike_clusters': list(sc), 'id_dtype': idt, 'raw': False, 'features': 'absent',
             'tfeatures': 'absent', 'fill': case.get('fill', 0)}
     with core.Scratch() as d:
@@ -27,7 +29,7 @@ def run_case(case, acc, order):
             st = ST[:len(sc)]
             for c in (0, 2, 5, 7):
                 exp = [i for i in range(len(sc)) if sc[i] == c]
-                exp_counts = [sum(1 for i in exp if st[i] == t) for t in range(3)]
+                exp_counts = [sum(1 for i in exp if st[i] == t) for t in range(nt)]
                 for name, e, call in (
                         ('get_cluster_spikes', exp, lambda: m.get_cluster_spikes(c)),
                         ('get_template_counts', exp_counts, lambda: m.get_template_counts(c))):
@@ -41,7 +43,7 @@ def run_case(case, acc, order):
                         acc.violation(sig, core.make_record(
                             PROP, 'model', sig, case=case, op={'cluster': c}, expected=e, observed=got),
                             order)
-            for t in (0, 1, 2, 3):
+            for t in (0, 1, 2, 3, 4):
                 exp = [i for i in range(len(sc)) if st[i] == t]
                 try:
                     got = [int(x) for x in np.asarray(m.get_template_spikes(t)).tolist()]
@@ -57,7 +59,8 @@ def run_case(case, acc, order):
         finally:
             m.close()
     if order % 61 == 0:
-        acc.sample({'model_route': {'spike_templates': ST[:len(sc)], 'spike_clusters': sc}})
+        acc.sample({'model_route': {'spike_templates': ST[:len(sc)], 'n_templates': nt,
+                                    'spike_clusters': sc}})
 
 
 def explore(ctx):
@@ -65,8 +68,12 @@ def explore(ctx):
     i = 0
     for n in (3, 4, 5):
         for sc in itertools.product((0, 2, 5), repeat=n):
-            cases.append({'clusters': list(sc), 'id_dtype': ['int32', 'uint32', 'int64'][i % 3],
-                          'fill': ctx.seed})
+            for tk in (['all-used', 'middle-unused', 'top-unused'] if n == 5 else
+                       [['all-used', 'middle-unused', 'top-unused'][i % 3]]):
+                if len(set(STS[tk][1][:n])) < 2:
+                    continue
+                cases.append({'clusters': list(sc), 'id_dtype': ['int32', 'uint32', 'int64'][i % 3],
+                              'fill': ctx.seed, 'templates': tk})
             i += 1
     ctx.run_cases(run_case, cases, sweep='model-queries')
 
